@@ -12,6 +12,7 @@ import (
 	"github.com/gcash/bchd/wire"
 	"github.com/gcash/bchutil"
 	"github.com/gcash/bchutil/bloom"
+	"github.com/gcash/bchutil/merkleblock"
 )
 
 func init() {
@@ -467,6 +468,10 @@ func stress(c *Ctx, k, n int, flags int) int {
 	f := bloom.LoadFilter(wire.NewMsgFilterLoad(make([]byte, 4), 2, 1, wire.BloomUpdateType(flags)))
 	f.Add(poolItem(0))
 	f.Add(poolItem(1))
+	f.Add(scanItem)
+	// a block whose transactions come children first (every one relevant): the scan has to go back to spenders it
+	// has already passed -- the exported block-scan entry points reach the shared message as well
+	scanBytes := [][]byte{chainBlock(5, 1, false, true), chainBlock(5, 2, false, true)}
 	seeds := make([]int64, k)
 	for i := range seeds {
 		seeds[i] = r.Int63()
@@ -478,9 +483,26 @@ func stress(c *Ctx, k, n int, flags int) int {
 		go func(g int) {
 			defer wg.Done()
 			rr := newRand(seeds[g])
+			// every goroutine has its own block objects (a Block caches and is not shared); only the filter is shared
+			scanBlocks := []*bchutil.Block{}
+			for _, sb := range scanBytes {
+				if b, err := bchutil.NewBlockFromBytes(sb); err == nil {
+					scanBlocks = append(scanBlocks, b)
+				}
+			}
 			for i := 0; i < n; i++ {
 				p, _ := guard(func() {
-					switch rr.Intn(11) {
+					switch rr.Intn(13) {
+					case 11:
+						if len(scanBlocks) > 0 {
+							if rr.Intn(2) == 0 {
+								bloom.NewMerkleBlock(scanBlocks[rr.Intn(len(scanBlocks))], f)
+							} else {
+								merkleblock.NewMerkleBlockWithFilter(scanBlocks[rr.Intn(len(scanBlocks))], f)
+							}
+						}
+					case 12:
+						f.Add(scanItem)
 					case 0:
 						f.Add([]byte{byte(rr.Intn(4))})
 					case 1:
